@@ -390,16 +390,24 @@ Fixpoint decode_ws_aux (cur : string) (s : string) : list string :=
   end.
 Definition decode_ws (s : string) : list string := decode_ws_aux EmptyString s.
 
+(* the comparison with the real parser's answer [code] is made here, so that a shard prints a few bytes per case *)
+Definition cmp (code model : string) : string := if String.eqb code model then "=" else "!".
+
 Definition chk {A : Type} (parse : string -> option A) (pr : A -> list string -> string) (wf : A -> bool)
-           (run : string -> string) (s0 ws s : string) : string :=
+           (run : string -> string) (s0 ws s code : string) : string :=
   match parse s0 with
   | Some a =>
       (if String.eqb (pr a (decode_ws ws)) s then "P" else "p") ++ (if wf a then "W" else "w")
       ++ (if blanks (decode_ws ws) then "B" else "b")
   | None => "n"
-  end ++ "|" ++ run s.
+  end ++ cmp code (run s).
 Definition chk_eq := chk parse_eq print_eq wf_einsum run_eq.
 Definition chk_dir := chk parse_dir print_dir wf_dir run_dir.
 Definition chk_rt := chk parse_rt print_rt wf_rt run_rt.
 Definition chk_st := chk parse_st print_st wf_st run_st.
 Definition chk_lv := chk parse_lv print_lv wf_lv run_lv.
+Definition cmp_eq (s code : string) : string := cmp code (run_eq s).
+Definition cmp_dir (s code : string) : string := cmp code (run_dir s).
+Definition cmp_rt (s code : string) : string := cmp code (run_rt s).
+Definition cmp_st (s code : string) : string := cmp code (run_st s).
+Definition cmp_lv (s code : string) : string := cmp code (run_lv s).
